@@ -29,7 +29,7 @@ Variable allowed : hkl -> bool.
 Hypothesis HT : Tmax <= Tterm.
 Hypothesis Hmono : forall seg, In seg segs -> gram_ok G seg = true.
 Hypothesis Hq : forall R h, In R L -> qform G (vmZ h R) = qform G h.          (* the Laue group preserves the reciprocal metric *)
-Hypothesis Ha : forall R h, In R L -> allowed (vmZ h R) = allowed h.          (* and the reflection conditions *)
+Hypothesis Ha : forall R h, In R L -> qform G h <= Tmax -> allowed (vmZ h R) = allowed h.   (* and the reflection conditions, inside the shell *)
 
 Lemma laue_mats_L : laue_mats s = Some L.
 Proof. unfold laue_mats. rewrite Hrots, HL. reflexivity. Qed.
@@ -57,7 +57,7 @@ Proof.
   (* the representative is a row of the traversal *)
   assert (Krep : In (vmZ (x, y, z) R) reps).
   { apply (all_segments_complete G Tmin Tmax Tterm allowed HT fuel segs reps Hrep Hmono _ seg Hseg Hc).
-    unfold keep. rewrite (Ha R _ HR0), Hal, (Hq R _ HR0). destruct Hsh as [S1 S2]. apply Z.ltb_lt in S1. apply Z.leb_le in S2. rewrite S1, S2. reflexivity. }
+    unfold keep. rewrite (Ha R _ HR0 (proj2 Hsh)), Hal, (Hq R _ HR0). destruct Hsh as [S1 S2]. apply Z.ltb_lt in S1. apply Z.leb_le in S2. rewrite S1, S2. reflexivity. }
   (* and h is in its expansion, through the inverse of R *)
   rewrite forallb_forall in Hinv. specialize (Hinv R HR0). apply existsb_exists in Hinv. destruct Hinv as (R' & HR' & EI). apply mat_eqb_eq' in EI.
   apply in_flat_map. exists (vmZ (x, y, z) R). split; [exact Krep|].
